@@ -1132,27 +1132,36 @@ class FitBase(FileIOMixin, object):
         # Give relative model errors data as reference for initial fit:
         self._set_data_as_model_ref()
 
-        # Initial fit:
-        self._pre_fit_iteration(first_fit=True)
-        runtime = self._fitter.do_fit()  # TODO specify other node to minimize
-        self._post_fit_iteration(runtime, first_fit=True)
+        try:
+            # Initial fit:
+            self._pre_fit_iteration(first_fit=True)
+            runtime = self._fitter.do_fit()  # TODO specify other node to minimize
+            self._post_fit_iteration(runtime, first_fit=True)
 
-        if self._iterative_fits_needed():
-            _convergence_limit = float(kc("fit", "iterative_do_fit", "convergence_limit"))
-            _previous_cost = self.cost_function_value
-            for i in range(kc("fit", "iterative_do_fit", "max_iterations")):
+            if self._iterative_fits_needed():
+                _convergence_limit = float(kc("fit", "iterative_do_fit", "convergence_limit"))
+                _previous_cost = self.cost_function_value
+                for i in range(kc("fit", "iterative_do_fit", "max_iterations")):
+                    self._pre_fit_iteration()
+                    self._fitter.reset_minimizer()  # flush iminuit cache
+                    runtime = self._fitter.do_fit()
+                    self._post_fit_iteration(runtime)
+                    if abs(self.cost_function_value - _previous_cost) < _convergence_limit:
+                        break
+                    _previous_cost = self.cost_function_value
+            elif self._second_fit_needed():
                 self._pre_fit_iteration()
                 self._fitter.reset_minimizer()  # flush iminuit cache
                 runtime = self._fitter.do_fit()
                 self._post_fit_iteration(runtime)
-                if abs(self.cost_function_value - _previous_cost) < _convergence_limit:
-                    break
-                _previous_cost = self.cost_function_value
-        elif self._second_fit_needed():
-            self._pre_fit_iteration()
-            self._fitter.reset_minimizer()  # flush iminuit cache
-            runtime = self._fitter.do_fit()
-            self._post_fit_iteration(runtime)
+        except Exception:
+            # a failed minimization must not leave the uncertainties pinned to the values they had during the fit
+            for _node_name in set(self._get_node_names_to_freeze(True)) | set(self._get_node_names_to_freeze(False)):
+                _node = self._nexus.get(_node_name)
+                if _node.frozen:
+                    _node.unfreeze()
+                    _node.notify_parents()
+            raise
 
         self._loaded_result_dict = None
         self._update_parameter_formatters()
